@@ -193,3 +193,97 @@ Example C01_canon_complist_refuted :
   run_canon 10 c (mkCFix false true true (mkFix true true true)) complist_msg SelRoot = KPanic /\
   exists bs, run_canon 10 c (mkCFix true true true (mkFix true true true)) complist_msg SelRoot = KOk bs.
 Proof. exact canon_complist_refuted. Qed.
+
+(* ================================================================== from raw bytes *)
+(* "For any byte strings supplied as the segments of a message (any segment count, any arena,
+   packed or unpacked framing)": the framing models (Frame/Frame.v Unmarshal and Decoder.Decode
+   over any chunking, Frame/FramePacked.v UnmarshalPacked and NewPackedDecoder over
+   Packed/Packed.v) composed with the reader and consumer theorems above (Core/EndToEnd.v).
+   [msg_ok] - until here a trusted hypothesis - is DISCHARGED: the only hypothesis left on the
+   input is that it is a string of bytes ([bytes_ok b]: every element is 0..255). *)
+From CV Require Import Core.EndToEnd.
+
+(* (1) every message the framing layer returns is msg_ok *)
+Theorem C01_unmarshal_msg_ok : forall b segs, bytes_ok b -> FR.unmarshal b = FR.Ok segs -> msg_ok segs.
+Proof. exact unmarshal_msg_ok. Qed.
+Print Assumptions C01_unmarshal_msg_ok.
+
+Theorem C01_unmarshal_packed_msg_ok : forall p segs, bytes_ok p -> FP.unmarshal_packed p = FR.Ok segs -> msg_ok segs.
+Proof. exact unmarshal_packed_msg_ok. Qed.
+Print Assumptions C01_unmarshal_packed_msg_ok.
+
+Theorem C01_decode1_msg_ok : forall cs fin hc bc ru mx st' out log,
+  bytes_ok (concat cs) -> 0 <= mx < FR.two64 ->
+  FR.decode1 (FR.mkD (FR.mkReader cs fin) hc bc ru mx) = (st', out, log) ->
+  out <> FR.DPanic /\ (forall segs, out = FR.DMsg segs -> msg_ok segs) /\
+  CV.Frame.FrameAlloc.st_ok st'.
+Proof. exact decode1_msg_ok. Qed.
+Print Assumptions C01_decode1_msg_ok.
+
+(* (2) Unmarshal / UnmarshalPacked never panic and everything read afterwards is safe *)
+Theorem C01_unmarshal_then_read_safe : forall b c fx, bytes_ok b -> repaired c fx ->
+  match FR.unmarshal b with
+  | FR.Ok segs => msg_ok segs /\ read_safe c fx segs
+  | FR.Err _ => True
+  | FR.Panic => False
+  end.
+Proof. exact unmarshal_then_read_safe. Qed.
+Print Assumptions C01_unmarshal_then_read_safe.
+
+Theorem C01_unmarshal_packed_then_read_safe : forall p c fx, bytes_ok p -> repaired c fx ->
+  match FP.unmarshal_packed p with
+  | FR.Ok segs => msg_ok segs /\ read_safe c fx segs
+  | FR.Err _ => True
+  | FR.Panic => False
+  end.
+Proof. exact unmarshal_packed_then_read_safe. Qed.
+Print Assumptions C01_unmarshal_packed_then_read_safe.
+
+(* the streaming Decoder: any byte stream, any chunking, any history of Decode / ReuseBuffer /
+   MaxMessageSize assignments *)
+Theorem C01_decode_then_read_safe : forall cs fin hc bc ru mx ops c fx st' outs,
+  bytes_ok (concat cs) -> 0 <= mx < FR.two64 -> repaired c fx ->
+  FR.run_history (FR.mkD (FR.mkReader cs fin) hc bc ru mx) ops = (st', outs) ->
+  Forall (fun ol => fst ol <> FR.DPanic /\
+                    forall segs, fst ol = FR.DMsg segs -> msg_ok segs /\ read_safe c fx segs) outs.
+Proof. exact decode_then_read_safe. Qed.
+Print Assumptions C01_decode_then_read_safe.
+
+(* NewPackedDecoder over a packed stream that unpacks (arbitrary content): outcome k equals the
+   plain Decoder's on the unpacked stream while messages come out, hence is safe *)
+Theorem C01_pdecode_n_then_read_safe : forall P U orc hc bc ru mx c fx n k,
+  bytes_ok P -> PK.unpack P = Some U -> 0 <= mx < FR.two64 -> repaired c fx -> (k < n)%nat ->
+  let outs_plain := snd (FR.decode_n (FR.mkD (FR.mkReader [U] PK.EOF) hc bc ru mx) n) in
+  let outs_packed := snd (FP.pdecode_n (FR.mkD (FP.p_init orc P) hc bc ru mx) n) in
+  CV.Frame.FrameSim.all_msgs (firstn k outs_plain) = true ->
+  let o := nth k outs_packed (FR.DEof, []) in
+  nth k outs_packed (FR.DEof, []) = nth k outs_plain (FR.DEof, []) /\
+  fst o <> FR.DPanic /\ forall segs, fst o = FR.DMsg segs -> msg_ok segs /\ read_safe c fx segs.
+Proof. exact pdecode_n_then_read_safe. Qed.
+Print Assumptions C01_pdecode_n_then_read_safe.
+
+(* (3) the recursive consumers, from raw bytes *)
+Theorem C01_equal_from_bytes_safe : forall b1 b2 sa sb fuel ca cb fx capsa capsb same sela selb,
+  bytes_ok b1 -> bytes_ok b2 -> FR.unmarshal b1 = FR.Ok sa -> FR.unmarshal b2 = FR.Ok sb ->
+  cfg_strict ca = true -> cfg_root ca = true -> cfg_strict cb = true -> cfg_root cb = true ->
+  0 <= cfg_T ca -> 0 <= cfg_T cb ->
+  (match sela with SelField i => 0 <= i | SelRoot => True end) ->
+  (match selb with SelField i => 0 <= i | SelRoot => True end) ->
+  fst (fst (run_equal fuel ca cb fx sa capsa sb capsb same sela selb)) <> EPanic.
+Proof. exact equal_from_bytes_safe. Qed.
+Print Assumptions C01_equal_from_bytes_safe.
+
+Theorem C01_canon_from_bytes_safe : forall b segs fuel c fx sel,
+  bytes_ok b -> FR.unmarshal b = FR.Ok segs ->
+  cfg_strict c = true -> cfg_root c = true -> cx_complist fx = true -> 0 <= cfg_T c ->
+  (match sel with SelField i => 0 <= i | SelRoot => True end) ->
+  run_canon fuel c fx segs sel <> KPanic.
+Proof. exact canon_from_bytes_safe. Qed.
+Print Assumptions C01_canon_from_bytes_safe.
+
+Theorem C01_copy_from_bytes_safe : forall b segs fuel c,
+  bytes_ok b -> FR.unmarshal b = FR.Ok segs ->
+  cfg_strict c = true -> cfg_root c = true -> 0 <= cfg_T c ->
+  copy_root fuel c segs <> Panic.
+Proof. exact copy_from_bytes_safe. Qed.
+Print Assumptions C01_copy_from_bytes_safe.
